@@ -70,6 +70,7 @@ inductive Out
   | identEnd (name : Id) (delta : Int) (fn glob cls : Int) (lnum : Int)
   | localsEnd (cur max lOff tOff : Nat)
   | scr (name : String) (tail : Nat) (size : Nat) (last : Nat) (large : Nat) (k : Option Nat)
+  | scrEnd (last tail large : Nat)
   | crash (what : String)
   deriving Repr, DecidableEq
 
@@ -446,7 +447,9 @@ def step (s : St) (e : Ev) : St × List Out :=
   let (mem', o3) := stepMem s.mem e
   let (lex', o4) := stepLex s.lex e
   let (pad', o5) := stepPad s.pad e
-  (⟨loc', ids', mem', lex', pad'⟩, o1 ++ o3 ++ o4 ++ o2 ++ o5)
+  -- end_new_file: the harness also reports the scratchpad, which scratch_destroy() must have emptied by then
+  let o6 := match e with | .lexEnd => [Out.scrEnd pad'.last pad'.tail pad'.large] | _ => []
+  (⟨loc', ids', mem', lex', pad'⟩, o1 ++ o3 ++ o4 ++ o2 ++ o5 ++ o6)
 
 def run (s : St) : List Ev → St × List Out
   | [] => (s, [])
